@@ -150,7 +150,30 @@ pub fn gen_case(t: &mut Tape) -> Case {
         }
         2 => {
             let mant = t.range(0, 99999) as f64;
-            let (value, spelling) = match t.choose(6) {
+            let (value, spelling) = match t.choose(8) {
+                6 | 7 => {
+                    // an integer-looking literal beyond the i64 range denotes that number (as a float)
+                    let mut s = String::from(*t.pick(&["9223372036854775808", "10000000000000000000", "18446744073709551615", "9223372036854775807"]));
+                    if t.chance(1, 2) {
+                        s = format!("{}{}", 1 + t.choose(9), (0..(19 + t.choose(6))).map(|_| char::from(b'0' + t.choose(10) as u8)).collect::<String>());
+                    }
+                    let v = s.parse::<f64>().unwrap_or(0.0);
+                    if s.parse::<i64>().is_ok() {
+                        (v, format!("{s}.0"))
+                    } else if t.chance(1, 3) {
+                        // with underscores
+                        let mut o = String::new();
+                        for (i, c) in s.chars().enumerate() {
+                            if i > 0 && (s.len() - i) % 3 == 0 {
+                                o.push('_');
+                            }
+                            o.push(c);
+                        }
+                        (v, o)
+                    } else {
+                        (v, s)
+                    }
+                }
                 0 => {
                     let v = mant / 100.0;
                     (v, format!("{v:?}"))
